@@ -1004,14 +1004,23 @@ class H2Connection:
         if (stream_id % 2) == 0:
             raise ProtocolError("Cannot recursively push streams.")
 
+        highest_outbound_stream_id = self.highest_outbound_stream_id
         new_stream = self._begin_new_stream(
             promised_stream_id, AllowedStreamIDs.EVEN
         )
         self.streams[promised_stream_id] = new_stream
 
-        frames = stream.push_stream_in_band(
-            promised_stream_id, request_headers, self.encoder
-        )
+        try:
+            frames = stream.push_stream_in_band(
+                promised_stream_id, request_headers, self.encoder
+            )
+        except ProtocolError:
+            # No PUSH_PROMISE has been sent, so the promised stream does not
+            # exist: nothing may be sent on it later.
+            del self.streams[promised_stream_id]
+            self.highest_outbound_stream_id = highest_outbound_stream_id
+            raise
+
         new_frames = new_stream.locally_pushed()
         self._prepare_for_sending(frames + new_frames)
 
